@@ -1,5 +1,6 @@
 import MpsVerif.Proofs.Frame
 import MpsVerif.Proofs.MuxInv
+import MpsVerif.Proofs.Pipe
 /-!
 # C18 — socket and pipe transports deliver intact and to the right request
 
@@ -114,3 +115,53 @@ example :
   decide
 
 end Mux
+
+/-!
+Part 3 (named pipe, `Model/Pipe.lean`): two FIFOs with crossed roles carrying
+`multiprocessing.Connection` messages; any interleaving of sends, partial kernel writes and receives
+on both endpoints.
+-/
+namespace Pipe
+
+/-- What an endpoint has received is exactly the first messages its **peer** sent (never its own),
+    byte-identical and in order — in both directions, for every interleaving and every chunking of
+    the writes. -/
+theorem C18_pipe_fifo (s : State) (hr : Reachable s) (r : Role) :
+    s.rcvdBy r = (s.sentBy (peer r)).take (s.rcvdBy r).length := by
+  have hi := all_reachable hr
+  cases r
+  · exact hi.1.pref
+  · exact hi.2.pref
+
+/-- Nothing is lost or stuck: once the peer's `send` calls have returned (all bytes written), a
+    message sent and not yet received can be received. -/
+theorem C18_pipe_no_loss (s : State) (hr : Reachable s) (r : Role)
+    (hidle : (s.chan (wpath (peer r))).outbuf = [])
+    (hlt : (s.rcvdBy r).length < (s.sentBy (peer r)).length) :
+    (step s (.recv r)).isSome = true := by
+  have hi := all_reachable hr
+  have key : ∀ c : Chan, ChanInv c → c.outbuf = [] → c.rcvd.length < c.sent.length →
+      ∃ m rest, readFrame c.fifo = some (m, rest) := by
+    intro c hc ho hl
+    have hb := hc.bytes
+    rw [ho, List.append_nil, List.drop_eq_getElem_cons hl, List.flatMap_cons] at hb
+    exact ⟨_, _, by rw [hb]; exact readFrame_frame _ _ (hc.len _ (List.getElem_mem hl))⟩
+  cases r
+  · obtain ⟨m, rest, h⟩ := key s.f1 hi.1 hidle hlt
+    simp [step, rpath, State.chan, h]
+  · obtain ⟨m, rest, h⟩ := key s.f2 hi.2 hidle hlt
+    simp [step, rpath, State.chan, h]
+
+/-- non-vacuity: both directions at once, a message containing what looks like a length header, an
+    empty message, writes taken by the kernel in pieces; a receive before the bytes are complete is
+    not enabled -/
+example :
+    let acts : List Act :=
+      [.send .server [0, 0, 0, 1, 7], .flush .server 2, .send .client [9], .flush .server 5, .recv .client,
+       .send .server [], .flush .client 4, .flush .server 3, .recv .server, .recv .client]
+    (Core.run step init acts).map (fun s => (s.rcvdBy .client, s.rcvdBy .server, s.sentBy .server, s.sentBy .client))
+      = some ([[0, 0, 0, 1, 7], []], [[9]], [[0, 0, 0, 1, 7], []], [[9]])
+    ∧ Core.run step init [.send .server [0, 0, 0, 1, 7], .flush .server 2, .recv .client] = none := by
+  decide
+
+end Pipe
